@@ -1,5 +1,6 @@
 """C14 — output bytes are a deterministic function of objects and configuration."""
 import json
+import os
 import vlib
 from checks import codec
 from checks import c01
@@ -90,6 +91,7 @@ def run(rep, tier, seed):
         if r.get("distinctOutputs", 1) > 1:
             rep.violation("write:random:%s:outputs" % r["scen"], "session '%s': %d distinct output files over %d schedules"
                           % (r["scen"], r["distinctOutputs"], r["runs"]), r)
+    SC.pair_sessions(rep, seed + 5, 2 if tier == "quick" else 10)
     rep.cov["distinct_nontrivial"] = nrec + len(runs[0])
     rep.assumptions += ["heap poisoning through a replaced global operator new (stack memory is not poisoned)",
                         "zlib is deterministic"]
